@@ -698,12 +698,12 @@ class VM:
 
                 # Walk the prototype chain
                 result = False
-                current = getattr(obj, "_prototype", None)
+                current = self._proto_of(obj)
                 while current is not None and proto is not None:
                     if current is proto:
                         result = True
                         break
-                    current = getattr(current, "_prototype", None)
+                    current = self._proto_of(current)
                 self.stack.append(result)
 
         elif op == OpCode.IN:
@@ -1068,6 +1068,21 @@ class VM:
         proto = constructor.get("prototype") if isinstance(constructor, JSObject) else None
         return proto if isinstance(proto, JSObject) else None
 
+    def _proto_of(self, obj: JSObject) -> Optional[JSObject]:
+        """[[Prototype]] of an object. Arrays made by built-ins (concat, map, Object.keys ...)
+        carry no link of their own: they inherit from this context's Array.prototype."""
+        proto = obj._prototype
+        if (
+            proto is None
+            and isinstance(obj, JSArray)
+            and not getattr(obj, "_null_prototype", False)
+        ):
+            constructor = self.globals.get("Array")
+            default = constructor.get("prototype") if isinstance(constructor, JSObject) else None
+            if isinstance(default, JSObject) and default is not obj:
+                return default
+        return proto
+
     def _property_holder(self, obj: JSValue) -> Optional[JSObject]:
         """The object whose property tables describe `obj`: the object itself, or the
         side table of a function (linked to Function.prototype)."""
@@ -1097,7 +1112,7 @@ class VM:
                 if key == "length":
                     return ("data", current.length)
                 return ("data", current.get_index(int(key)))
-            current = current._prototype
+            current = self._proto_of(current)
         return None
 
     def _read_found(self, found: tuple, receiver: JSValue) -> JSValue:
@@ -1112,7 +1127,8 @@ class VM:
         if found is not None:
             return self._read_found(found, receiver)
         if key == "__proto__" and self._inherits_object_prototype(holder):
-            return holder._prototype if holder._prototype is not None else NULL
+            proto = self._proto_of(holder)
+            return proto if proto is not None else NULL
         return UNDEFINED
 
     def _inherits_object_prototype(self, holder: JSObject) -> bool:
@@ -1122,7 +1138,7 @@ class VM:
         while current is not None:
             if current is root:
                 return True
-            current = current._prototype
+            current = self._proto_of(current)
         return False
 
     def _has_property(self, obj: JSValue, holder: JSObject, key: str) -> bool:
@@ -1139,7 +1155,7 @@ class VM:
         while current is not None:
             if current.has_own(key):
                 return True
-            current = current._prototype
+            current = self._proto_of(current)
         return False
 
     def _constructor_prototype(self, constructor: JSValue) -> Optional[JSObject]:
@@ -1159,6 +1175,8 @@ class VM:
         """Link obj to a new prototype (an object or null); cycles are an error."""
         if proto is NULL or proto is None:
             obj._prototype = None
+            if isinstance(obj, JSArray):
+                obj._null_prototype = True
             return
         current = proto
         while current is not None:
